@@ -40,6 +40,9 @@ def main():
         problems[m] = p
         return p
 
+    def cfg_of(op):
+        return dict(op["cfg"], caller_buffer=True) if op.get("caller_buffer") else op["cfg"]
+
     def stats(s):
         return {k: int(v) for k, v in s.get_statistics().items()}
 
@@ -50,7 +53,7 @@ def main():
         kind = op["kind"]
         try:
             if kind == "new_solver":
-                s = nucsio.build_solver(problem_for(op), op["cfg"])
+                s = nucsio.build_solver(problem_for(op), cfg_of(op))
                 solvers[op["name"]] = [s, None]
                 obs = {"ok": True}
             elif kind == "take":
@@ -68,10 +71,10 @@ def main():
                 solvers.pop(op["name"], None)
                 obs = {"ok": True}
             elif kind == "find_all":
-                s = nucsio.build_solver(problem_for(op), op["cfg"], stack_max_height=op.get("height", 128))
+                s = nucsio.build_solver(problem_for(op), cfg_of(op), stack_max_height=op.get("height", 128))
                 obs = {"solutions": [sol(x) for x in s.find_all()], "stats": stats(s)}
             elif kind == "optimize":
-                s = nucsio.build_solver(problem_for(op), op["cfg"])
+                s = nucsio.build_solver(problem_for(op), cfg_of(op))
                 r = s.minimize(op["var"]) if op["dir"] == "min" else s.maximize(op["var"])
                 obs = {"solutions": [sol(r)], "stats": stats(s)}
             elif kind == "split_solve":
@@ -80,7 +83,7 @@ def main():
                 out = []
                 st = []
                 for sp in parts:
-                    s = nucsio.build_solver(sp, op["cfg"])
+                    s = nucsio.build_solver(sp, cfg_of(op))
                     out.append([sol(x) for x in s.find_all()])
                     st.append(stats(s))
                 obs = {"solutions": out, "stats": st, "domains": [list(map(list, sp.shr_domains_lst)) for sp in parts]}
